@@ -954,7 +954,89 @@ func c19SharedEvent(c *mon.Ctx, r *gen.Rand) {
 	c.Floor("shared_event_runs", 10)
 }
 
+// c19ColdStart: the very first calls this process makes into the library come from sixteen goroutines at once (a server
+// that starts up and is handed a batch of events): whatever the library computes once and keeps - tables of member
+// names, decoded versions - every caller gets the answer a lone caller would get. Runs before anything else.
+func c19ColdStart(c *mon.Ctx) {
+	id := gen.NewIdentity(c.RandShared("cold-id"), "a.example", "ed25519:k1")
+	type q struct {
+		ver  gmsl.RoomVersion
+		text []byte
+	}
+	var qs []q
+	// (the events are assembled with the reference encoder only, so that nothing of the library has run yet)
+	for _, ver := range []string{"1", "4", "10", "11", "12"} {
+		t := ref.Traits(ver)
+		if t == nil {
+			continue
+		}
+		for _, typ := range []string{"m.room.member", "m.room.message", "m.room.power_levels"} {
+			ev := gen.RawEvent(c.RandShared("cold-"+ver+typ), t, typ, gen.SafeNumbers)
+			ev.Del("hashes")
+			ev.Set("hashes", ref.O("sha256", ref.S("AAAAAAAAAAAAAAAAAAAAAAAAAAAAAAAAAAAAAAAAAAA")))
+			qs = append(qs, q{gmsl.RoomVersion(ver), gen.Plain().Bytes(ev)})
+		}
+	}
+	_ = id
+	c.Case("cold-start", map[string]any{"questions": len(qs), "goroutines": 16}, func() {
+		c.Nontrivial("cold-start")
+		ask := func(i int) string {
+			impl, err := gmsl.GetRoomVersion(qs[i].ver)
+			if err != nil {
+				return "no such version"
+			}
+			p, perr := impl.NewEventFromUntrustedJSON(qs[i].text)
+			red, rerr := impl.RedactEventJSON(qs[i].text)
+			out := fmt.Sprintf("parse-error=%v redact=%s redact-error=%v", perr != nil, red, rerr != nil)
+			if perr == nil && p != nil {
+				sk := "<nil>"
+				if p.StateKey() != nil {
+					sk = *p.StateKey()
+				}
+				out += fmt.Sprintf(" id=%s type=%s sender=%s state_key=%s redacted=%v json=%s", p.EventID(), p.Type(), p.SenderID(), sk, p.Redacted(), p.JSON())
+			}
+			return out
+		}
+		const g = 16
+		got := make([][]string, g)
+		var wg sync.WaitGroup
+		start := make(chan struct{})
+		for k := 0; k < g; k++ {
+			got[k] = make([]string, len(qs))
+			wg.Add(1)
+			go func(k int) {
+				defer wg.Done()
+				<-start
+				for j := range qs {
+					i := (j + k) % len(qs)
+					func() {
+						defer func() {
+							if r := recover(); r != nil {
+								got[k][i] = fmt.Sprintf("panic: %v", r)
+							}
+						}()
+						got[k][i] = ask(i)
+					}()
+				}
+			}(k)
+		}
+		close(start)
+		wg.Wait()
+		c.CountN("cold_start_calls", int64(g*len(qs)))
+		for i := range qs {
+			want := ask(i)
+			for k := 0; k < g; k++ {
+				if got[k][i] != want {
+					c.Failf("cold-start:concurrent-first-call-differs", "one of the first sixteen concurrent callers of this process got %q for question %d (v%s); a lone caller gets %q", trunc([]byte(got[k][i])), i, qs[i].ver, trunc([]byte(want)))
+					return
+				}
+			}
+		}
+	})
+}
+
 func runC19(c *mon.Ctx) {
+	c19ColdStart(c)
 	r := c.Rand("c19")
 	c19DNS(c, r.Fork("dns"))
 	c19DNSDial(c, r.Fork("dns-dial"))
